@@ -171,10 +171,10 @@ func C08(c *Ctx) {
 		c.Decide(len(direct) == 0, r5, key(fn, "no-direct-lsm-write"), fn.Pos(), 1, "rewrite re-inserts only through batchSet", "rewrite writes to the LSM/WAL directly, bypassing the write pipeline")
 	}
 	onlyCallers(c, r5, c.Fn("", "DB.sendToWriteCh"), map[string]string{
-		"(*NoKV.DB).batchSet":              "GC re-inserts",
-		"(*NoKV.DB).setEntry":              "plain writes",
-		"(*NoKV.DB).SetVersionedEntry":     "versioned writes (percolator)",
-		"(*NoKV.Txn).commitAndSend":        "transactions",
+		"(*NoKV.DB).batchSet":                "GC re-inserts",
+		"(*NoKV.DB).setEntry":                "plain writes",
+		"(*NoKV.DB).SetVersionedEntry":       "versioned writes (percolator)",
+		"(*NoKV.Txn).commitAndSend":          "transactions",
 		"(*NoKV.valueLog).flushDiscardStats": "reserved discard-stats key",
 	}, 3)
 }
